@@ -10,6 +10,7 @@ import (
 	"flag"
 	"fmt"
 	"math"
+	"strings"
 	"time"
 
 	sdk "github.com/pokt-network/pocket-core/types"
@@ -60,6 +61,21 @@ func main() {
 	for _, m := range modNames {
 		rcpt = append(rcpt, ak.GetModuleAddress(m))
 	}
+	// recipients whose length is not 20 bytes (MsgSend.ValidateBasic only rejects an empty address):
+	// an existing account's address plus one byte, a 19-byte prefix of one, 1 byte, 32 bytes.  Distinct
+	// byte strings are distinct accounts.
+	nBase := len(rcpt)
+	odd := []sdk.Address{
+		append(append(sdk.Address{}, keys[0].Addr...), 0x00),
+		append(append(sdk.Address{}, keys[1].Addr...), 0x7f),
+		append(sdk.Address{}, keys[2].Addr[:19]...),
+		append(sdk.Address{}, keys[0].Addr[:19]...),
+		{0x01},
+		append(append(sdk.Address{}, keys[3].Addr...), keys[4].Addr[:12]...),
+		append(append(sdk.Address{}, ak.GetModuleAddress(govTypes.DAOAccountName)...), 0x01),
+	}
+	rcpt = append(rcpt, odd...)
+	_ = nBase
 	for i := 0; i < 3; i++ { // recipients nobody holds a key for
 		rcpt = append(rcpt, chain.KeyN(4000+uint64(i)).Addr)
 	}
@@ -96,8 +112,13 @@ func main() {
 			}
 			to := rcpt[r.Intn(len(rcpt))]
 			class := "other"
+			if len(to) != 20 {
+				class = "oddlen"
+			}
 			if r.Chance(1, 8) {
 				to, class = from.Addr, "self"
+			} else if r.Chance(1, 12) { // the sender's own address plus one byte: a different account
+				to, class = append(append(sdk.Address{}, from.Addr...), byte(r.Intn(3))), "oddlen-self"
 			}
 			fee := int64(chain.DefaultFee)
 			if r.Chance(1, 6) {
@@ -136,7 +157,10 @@ func main() {
 			default:
 				amt = int64(1 + r.Intn(5000000))
 			}
-			if amt > 1000000000 && r.Chance(3, 4) { // keep large amounts circulating among key holders
+			if strings.HasPrefix(class, "oddlen") && amt > 5000000 && r.Chance(9, 10) {
+				amt = 1 + amt%5000000 // funds sent there never come back: keep the senders liquid
+			}
+			if amt > 1000000000 && r.Chance(3, 4) && !strings.HasPrefix(class, "oddlen") { // keep large amounts circulating among key holders
 				to = keys[r.Intn(len(keys))].Addr
 				if class == "self" {
 					to = from.Addr
